@@ -98,12 +98,22 @@ def build(p, ctx=None):
             if style == 'function' or not parts:
                 return lazy_dataset.intersperse(*parts)
             return parts[0].intersperse(*parts[1:])
+        # the module-level functions (with the datasets as arguments or as one list) and the stage classes are
+        # further ways to the same stage: every one must refuse what the method refuses
         if op == 'zip':
-            if not parts:
-                return lazy_dataset.core._zip(*parts)
+            if not parts or style == 'function':
+                return lazy_dataset.zip(*parts)
+            if style == 'function_list':
+                return lazy_dataset.zip(parts)
+            if style == 'class':
+                return lazy_dataset.core.ZipDataset(*parts)
             return parts[0].zip(*parts[1:])
-        if not parts:
+        if not parts or style == 'function':
             return lazy_dataset.key_zip(*parts)
+        if style == 'function_list':
+            return lazy_dataset.key_zip(parts)
+        if style == 'class':
+            return lazy_dataset.core.KeyZipDataset(*parts)
         return parts[0].key_zip(*parts[1:])
     ds = build(p['p'], ctx)
     if op == 'map':
@@ -115,7 +125,17 @@ def build(p, ctx=None):
     if op == 'filterEager':
         return ds.filter(ctx.pred(p['f']), lazy=False)
     if op == 'slice':
-        return ds[py_slice(p['s'])]
+        ix = py_slice(p['s'])
+        out = ds[ix]
+        # the selection is made when the slice is taken (the eager reference is `xs[ix]` at this moment): what the
+        # caller does to its own index container afterwards must not reach the dataset
+        if isinstance(ix, np.ndarray) and ix.size > 1:
+            ix[:] = ix[::-1].copy()
+        elif isinstance(ix, list) and len(ix) == 1 and isinstance(ix[0], list):
+            ix[0].reverse()
+        elif isinstance(ix, list):
+            ix.reverse()
+        return out
     if op == 'batch':
         return ds.batch(p['n'], drop_last=p['dropLast'])
     if op == 'unbatch':
